@@ -5,7 +5,7 @@ namespace BoaVerif.C05
     (facts about IEEE doubles / ECMAScript arithmetic, see C13): x / 2 = x * 0.5 and x ** 2 = x * x -/
 structure LitSem.Laws (S : LitSem) : Prop where
   half : ∀ l, S.binop .div l (.int 2) = S.binop .mul l .half
-  square : ∀ l, S.binop .exp l (.int 2) = S.binop .mul l l
+  square : ∀ l, l.isBig = false → S.binop .exp l (.int 2) = S.binop .mul l l
   truthyBool : ∀ b, S.truthy (.bool b) = b
 
 section
@@ -49,7 +49,10 @@ theorem reduceNode_sound (hl : S.Laws) (e : Expr) (s : EState) :
       | thrown s'' => rfl
       | ok l s'' => simp only [hl.half]
   · rename_i l
-    simp only [applyAction, eval, toPrim_lit, hl.square]
+    split
+    · rfl
+    · rename_i hb
+      simp only [applyAction, eval, toPrim_lit, hl.square l (by simpa using hb)]
   · rfl
 
 /-- the post-order walk preserves evaluation whenever the per-node step does -/
@@ -99,6 +102,11 @@ theorem walk_sound (f : Expr → Action)
     rw [hf]
     have : eval S W (walk f e).1 = eval S W e := funext ih
     simp only [eval, this]
+  | paren e ih =>
+    intro s
+    simp only [walk]
+    rw [hf]
+    simp only [eval, ih]
 
 theorem iterate_sound (f : Expr → Action)
     (hf : ∀ e s, eval S W (applyAction e (f e)).1 s = eval S W e s) :
